@@ -1076,7 +1076,7 @@ fn do_builder(cx: &mut Ctx, gs: &[G], model: bool, tag: &str) {
 
 /// a 1-point glyph whose encoding is exactly `len` bytes (len even, >= 16): 15 + instructions
 fn filler_glyph(len: usize) -> SG {
-    assert!(len % 2 == 0 && len >= 16 && len - 15 < 65535);
+    let len = len.clamp(16, 65548) & !1usize; // never panic on a mutated tree: the oracle reports instead
     SG { bbox: [0; 4], contours: vec![vec![(0, 0, true)]], instr: vec![0x4b; len - 15] }
 }
 
@@ -1459,6 +1459,9 @@ fn main() {
         }
     }
     // --- malformed / arbitrary bytes through Glyph::read ---
+    if corpus.is_empty() {
+        corpus.push(vec![0, 1, 0, 0, 0, 0, 0, 0, 0, 0, 0, 0, 0, 0, 0x31, 0]);
+    }
     for _ in 0..(900 * scale) {
         let base = rng.pick(&corpus).clone();
         let mut m = mutate_bytes(&mut rng, &base);
@@ -1562,7 +1565,7 @@ fn main() {
             let comp = gen_composite(&mut rng);
             let comp_len = dump_composite(&comp).ok().and_then(|r| r.ok()).map(|b| b.len()).unwrap_or(0);
             let used = a + b + small_len + comp_len;
-            let c = total - used;
+            let c = total.saturating_sub(used);
             let mut gs = vec![G::Empty, G::Simple(filler_glyph(a)), G::Simple(small), G::Simple(filler_glyph(b)), G::Comp(comp), G::Simple(filler_glyph(c))];
             if variant == 1 {
                 gs.push(G::Empty);
